@@ -688,6 +688,17 @@ func secondRequestRefused(o *hx.Out) {
 	}
 }
 
+func ltsFixed(o *hx.Out, name string, kinds []string, corpus [][]sOp) {
+	sub := hx.NewOut(o.Prop, o.Dir)
+	runFixedSchedules(sub, name, kinds, corpus)
+	sub.Each(func(kind, term string, desc interface{}) {
+		o.Case("lts_"+kind, "Lts ("+term+")", desc)
+	})
+	for _, v := range sub.GoViol {
+		o.GoViol = append(o.GoViol, v)
+	}
+}
+
 func ltsCases(o *hx.Out, r *hx.Rand, p profile, n int) {
 	// in-process schedules, wrapped for the Script case type
 	sub := hx.NewOut(o.Prop, o.Dir)
